@@ -381,7 +381,8 @@ impl<'p> Gen<'p> {
             let mut binds = vec![];
             if let Some(k) = pat {
                 for t in &def.variants[k].1 {
-                    let x = self.fresh_name("f");
+                    // not `f`: `f32` / `f64` would shadow the type names
+                    let x = self.fresh_name("q");
                     self.declare(&x, *t, true);
                     self.noshadow.push(x.clone());
                     binds.push((x, *t));
